@@ -150,12 +150,12 @@ PROPS = {
                      'not decided: pandas / json agreement of the three batch formats (library code)']),
     'C06': dict(
         mods=['contracts.c07_scenarios'], k1=['ScenarioManagerSd.add_scenarios', 'SdSimulation.change_equation', 'SdSimulation.change_points',
-                                             'SdSimulation.change_runspecs', 'SdScenario.__init__'],
+                                             'SdSimulation.change_runspecs', 'SdScenario.__init__', 'SdRunner.run_scenario_step'],
         level='proof', engines=['contracts.c06_clone'],
         harness='verif/native/c09_harness.py', harness_budget=(25, 120),
         explanation='separation + frames: get_cloned_model returns a new Model that installs none of the base model\'s mutable containers (structural obligations '
                     'from the AST); change_equation / change_points / change_runspecs write only the fields of their own simulation model (frame proved); '
-                    '(the step runner\'s frame is proved under C09)',
+                    'the step runner applies the settings of a step only to the scenario they address and writes no other scenario\'s model (frame proved)',
         assumptions=_SCEN_ASSUME,
         not_decided=['not decided: "results equal those of a freshly built model" as a relation (C07 spine + harness)',
                      'not decided: sharing through mutable default arguments between managers; arrayed elements share _elements with the base element']),
